@@ -168,6 +168,64 @@ theorem C09_contract_edit (root : T) (recv : Path) (f : List T → Option Edit) 
   simp only [hg, he]
   exact C09_contract_finish _ hwf _
 
+/-- BULK OPERATIONS (`clear`, `sort`, `reverse`, `insert`, `del` / `pop` / `remove`, slice assignment,
+`del` slice, `*=` on a List anywhere in a tree — typed or not, below objects that override
+`_on_change` at any number of levels): the events are exactly one per subscribing node on the path
+from the root to the list (the list included), each carrying *all* the entries of the operation
+relative to the receiver, nobody else hears anything (`bulkSpec`, a closed form of the contract);
+and the delivered sequence is `notifications r' ups`, so `C09_order` (children before parents) and
+`C09_exactly_once` apply to it; old / new of the entries: `C09_truthful_edit_old/new`. -/
+theorem C09_bulk_edit (root : T) (recv : Path) (f : List T → Option Edit) (m : Meta)
+    (items : List (Key × T)) (e : Edit)
+    (hg : getAt root recv = some (.node m .list items)) (he : f (items.map (·.2)) = some e)
+    (hne : e.ents ≠ [])
+    (hwf : WF (resetChain (mapAt (setVals e.vals) root recv) recv)) :
+    let r' := resetChain (mapAt (setVals e.vals) root recv) recv
+    let ents := e.ents.map fun x => (Key.i x.1, x.2.1, x.2.2)
+    (applyEdit root recv true f).events = notifications r' (ownedUps recv ents) ∧
+      (applyEdit root recv true f).events.Perm (bulkSpec r' recv ents) := by
+  intro r' ents
+  have hups : (e.ents.map fun x => (({ path := recv ++ [Key.i x.1], old := x.2.1, new := x.2.2 } : Update), recv))
+      = ownedUps recv ents := by
+    simp [ownedUps, ents, List.map_map, Function.comp_def]
+  have hents : ents ≠ [] := by
+    intro h; apply hne; simpa [ents] using h
+  have hev : (applyEdit root recv true f).events = notifications r' (ownedUps recv ents) := by
+    unfold applyEdit
+    simp only [hg, he, hups, finish]
+    have : (ownedUps recv ents).isEmpty = false := by
+      cases hx : ents with
+      | nil => exact absurd hx hents
+      | cons _ _ => simp [ownedUps]
+    simp [this, r']
+  refine ⟨hev, ?_⟩
+  rw [hev, ← specNotifs_owned r' recv ents hents]
+  exact C09_contract r' hwf _
+
+/-- The same for `Dict.clear()` / `Dict.popitem()`. -/
+theorem C09_bulk_keyedit (root : T) (recv : Path)
+    (f : List (Key × T) → Option (List (Key × T) × List (Key × Option T × Option T))) (m : Meta)
+    (items items' : List (Key × T)) (ents : List (Key × Option T × Option T))
+    (hg : getAt root recv = some (.node m .dict items)) (he : f items = some (items', ents)) (hne : ents ≠ [])
+    (r' : T) (hr : r' = resetChain (mapAt (setItems items') root recv) recv) (hwf : WF r') :
+    (applyKeyEdit root recv true f).events = notifications r' (ownedUps recv ents) ∧
+      (applyKeyEdit root recv true f).events.Perm (bulkSpec r' recv ents) := by
+  have hev : (applyKeyEdit root recv true f).events = notifications r' (ownedUps recv ents) := by
+    rw [hr]
+    unfold applyKeyEdit
+    simp only [hg, he, finish]
+    have : (ownedUps recv ents).isEmpty = false := by
+      cases hx : ents with
+      | nil => exact absurd hx hne
+      | cons _ _ => simp [ownedUps]
+    have h2 : (ents.map fun x => (({ path := recv ++ [x.1], old := x.2.1, new := x.2.2 } : Update), recv))
+        = ownedUps recv ents := rfl
+    rw [h2]
+    simp [this]
+  refine ⟨hev, ?_⟩
+  rw [hev, ← specNotifs_owned r' recv ents hne]
+  exact C09_contract r' hwf _
+
 /-! ## Truthfulness of the recorded old / new values -/
 
 /-- One write at any depth (accessor write, `del`, `append`, each pair of a `rebind` / `extend` /
@@ -206,8 +264,8 @@ truthful values for batches of unrelated locations.) -/
 theorem C09_truthful_needs_unrelated :
     ∃ (root r' : T) (pairs : List (Path × T)) (ups : List (Update × Path)),
       writeAll root [] pairs [] = some (r', ups) ∧ ∃ x ∈ ups, getAt root x.1.path ≠ x.1.old := by
-  refine ⟨.node ⟨1, false, none⟩ .dict [],
-    _, [([Key.s "n"], .node ⟨0, false, none⟩ .dict [(Key.s "k", .leaf (.int 0))]), ([Key.s "n", Key.s "k"], .leaf (.int 1))],
+  refine ⟨.node { id := 1, sub := false, cache := none } .dict [],
+    _, [([Key.s "n"], .node { id := 0, sub := false, cache := none } .dict [(Key.s "k", .leaf (.int 0))]), ([Key.s "n", Key.s "k"], .leaf (.int 1))],
     _, rfl, ?_⟩
   refine ⟨_, List.mem_cons_of_mem _ (List.mem_singleton.2 rfl), ?_⟩
   simp [getAt, child, lookup]
@@ -338,9 +396,7 @@ theorem C09_contract_keyedit (root : T) (recv : Path)
     (f : List (Key × T) → Option (List (Key × T) × List (Key × Option T × Option T))) (m : Meta)
     (items items' : List (Key × T)) (ents : List (Key × Option T × Option T))
     (hg : getAt root recv = some (.node m .dict items)) (he : f items = some (items', ents))
-    (r' : T) (hr : r' = resetChain (mapAt (fun t => match t with
-          | .leaf a => .leaf a
-          | .node m k _ => .node m k items') root recv) recv) (hwf : WF r') :
+    (r' : T) (hr : r' = resetChain (mapAt (setItems items') root recv) recv) (hwf : WF r') :
     (applyKeyEdit root recv true f).events.Perm
       (specNotifs r' (ents.map fun x => ({ path := recv ++ [x.1], old := x.2.1, new := x.2.2 }, recv))) := by
   subst hr
@@ -495,9 +551,24 @@ theorem C09_fresh (n : Bool) (root : T) (recv : Path) (op : Op) (hf : Fresh root
 /-- A read at any node of a fresh tree answers exactly what a fresh computation on the current
 contents of that node gives (whether it comes from the node's memo or is recomputed from the
 children's answers), and the tree — with whatever the read memoised in the subtree — stays fresh. -/
-theorem C09_read (root : T) (p : Path) (hf : Fresh root) :
-    (readAt root p).2 = (getAt root p).map derive ∧ Fresh (readAt root p).1 :=
-  readAt_spec root p hf
+theorem C09_read (root : T) (p : Path) (f : Facts) (hf : Fresh root) :
+    (readAt root p f).2 = (getAt root p).map (fun n =>
+        (if f.nd then derive n else [], if f.miss then deriveMiss n else [])) ∧
+      Fresh (readAt root p f).1 :=
+  readAt_spec root p f hf
+
+/-- WHERE a read memoises: `sym_nondefault()` of a schema-bound node (an object, a typed Dict)
+whose memo is empty diffs the contents against the defaults and memoises the answer at that node
+only — its items, with whatever they memoise or not, are left exactly as they are (so the nodes
+between it and a later write may memoise nothing: every write therefore has to walk the whole chain
+to the root, `C09_invalidate_table`); a memo hit touches nothing at all. -/
+theorem C09_read_typed_memo (id : Nat) (sub : Bool) (miss : Option (List Path)) (cls : Nat) (sch : Schema)
+    (kd : Kind) (items : List (Key × T)) (d : LeafMap) :
+    (readND (.node ⟨id, sub, none, miss, cls, some sch⟩ kd items)).1
+        = .node ⟨id, sub, some (typedItems sch (T.svItems items)), miss, cls, some sch⟩ kd items ∧
+      (readND (.node ⟨id, sub, some d, miss, cls, some sch⟩ kd items))
+        = (.node ⟨id, sub, some d, miss, cls, some sch⟩ kd items, d) := by
+  simp [readND]
 
 /-- FRESHNESS over histories that interleave calls (notified or silent, at any depth) with reads at
 chosen nodes: the tree is fresh after every history … -/
@@ -507,34 +578,51 @@ theorem C09_fresh_history : (hs : List HStep) → (root : T) → Fresh root → 
   | .call recv n op :: rest, root, hf, hv =>
     C09_fresh_history rest _ (C09_fresh n root recv op hf (hv (.call recv n op) (by simp)))
       (fun s hs => hv s (List.mem_cons_of_mem _ hs))
-  | .read p :: rest, root, hf, hv =>
-    C09_fresh_history rest _ (readAt_spec root p hf).2 (fun s hs => hv s (List.mem_cons_of_mem _ hs))
+  | .read p f :: rest, root, hf, hv =>
+    C09_fresh_history rest _ (readAt_spec root p f hf).2 (fun s hs => hv s (List.mem_cons_of_mem _ hs))
 
 /-- … hence a read made at any node after any such history answers the fresh computation on the
 contents of that moment — whichever nodes were read (memoised) before and whichever were not. -/
-theorem C09_read_after_history (hs : List HStep) (root : T) (p : Path) (hf : Fresh root)
+theorem C09_read_after_history (hs : List HStep) (root : T) (p : Path) (f : Facts) (hf : Fresh root)
     (hv : ∀ s ∈ hs, s.Admissible OpFresh) :
-    (readAt (runH root hs) p).2 = (getAt (runH root hs) p).map derive :=
-  (readAt_spec _ p (C09_fresh_history hs root hf hv)).1
+    (readAt (runH root hs) p f).2 = (getAt (runH root hs) p).map (fun n =>
+        (if f.nd then derive n else [], if f.miss then deriveMiss n else [])) :=
+  (readAt_spec _ p f (C09_fresh_history hs root hf hv)).1
 
 /-- A root dict whose cache is filled, holding one leaf. -/
 def exRoot : T :=
-  .node { id := 1, sub := true, cache := some [([Key.s "k"], Atom.int 1)] } .dict [(Key.s "k", .leaf (.int 1))]
+  .node { id := 1, sub := true, cache := some [([Key.s "k"], Val.atom (Atom.int 1))] } .dict [(Key.s "k", .leaf (.int 1))]
 
 /-- Why the invalidation matters (the state of the code before the fixes): a write that does not
 reset the chain leaves the memoised value of the container stale. -/
 theorem C09_stale_without_invalidation :
     ∃ r u, writeAt exRoot [] [] (Key.s "k") (some (.leaf (.int 2))) = some (r, some u) ∧ ¬ Fresh r := by
   refine ⟨_, _, rfl, ?_⟩
-  simp [Fresh, FreshItems, deriveItems, setKv]
+  simp [Fresh, FreshItems, derive, T.sv, T.svItems, deriveS, deriveItemsS, setKv]
 
 /-! Non-vacuity -/
 example : WFK exRoot := by
   simp [WFK, exRoot, KeysNodup, KeysNodupItems, ListIndexed, ListIndexedItems]
 example : Unrelated [Key.s "a", Key.i 0] [Key.s "b"] := by simp [Unrelated]
-example : Fresh exRoot := by simp [exRoot, Fresh, FreshItems, deriveItems]
+example : Fresh exRoot := by simp [exRoot, Fresh, FreshItems, derive, T.sv, T.svItems, deriveS, deriveItemsS]
 example : WF exRoot := by simp [WF, exRoot, KeysNodup, KeysNodupItems, allSubs, allSubsItems]
 example : (step exRoot [] true (.setKey (Key.s "k") (.leaf (.int 2)))).events.length = 1 := by
   decide
+
+/-- A typed tree: an object of a class with the fields `k` (default 1) and `d` (a schema-bound Dict
+with default `{u: 2}`), holding `k = 1`, `d = {u: 5}`: `sym_nondefault()` is `{d.u: 5}`. -/
+def exTyped : T :=
+  .node { id := 1, sub := false, cache := none, cls := 7,
+          sch := some [(Key.s "k", some (.atom (.int 1))),
+                       (Key.s "d", some (.node .dict 0 [(Key.s "u", .atom (.int 2))]))] } .obj
+    [(Key.s "k", .leaf (.int 1)),
+     (Key.s "d", .node { id := 2, sub := false, cache := none, sch := some [(Key.s "u", some (.atom (.int 2)))] } .dict
+        [(Key.s "u", .leaf (.int 5))])]
+
+example : derive exTyped = [([Key.s "d", Key.s "u"], .atom (.int 5))] := by rfl
+/-- the read memoises at the object only: the Dict between it and the leaf memoises nothing. -/
+example : (match (readAt exTyped [] ⟨true, false⟩).1 with
+    | .node m _ [_, (_, .node m2 _ _)] => m.cache.isSome && m2.cache.isNone
+    | _ => false) = true := by decide
 
 end Pg.C09
